@@ -313,6 +313,13 @@ func (o *Overlay) savePendingMsg(onetMsg *ProtocolMsg, io MessageProxy) {
 func (o *Overlay) requestTree(si *network.ServerIdentity, onetMsg *ProtocolMsg, io MessageProxy) error {
 	o.savePendingMsg(onetMsg, io)
 
+	if tree := o.treeStorage.Get(onetMsg.To.TreeID); tree != nil {
+		// the tree has been stored (and the pending messages flushed) between
+		// the lookup of the caller and the parking of the message: flush again
+		o.checkPendingMessages(tree)
+		return nil
+	}
+
 	// try to prepare the message before locking the storage
 	msg, err := io.Wrap(nil, &OverlayMsg{
 		RequestTree: &RequestTree{TreeID: onetMsg.To.TreeID, Version: 1},
